@@ -343,6 +343,23 @@ func run(c *mon.Ctx) {
 		})
 		c.Class("concurrent-decoders")
 	})
+	c.Stream("concurrent-readers-of-one-header", c.N(8, 200), func(i int, r *gen.Rand) {
+		c.ConcurrentReaders("decoded PES header", c.N(300, 300), r, func(q *gen.Rand) func() string {
+			h := genPES(q, 0xc0+q.Intn(0x30), q.PickByte([]byte{0, 2, 3}))
+			b, hdrEnd := h.Bytes()
+			ph, err := pes.NewPESHeader(b)
+			if err != nil || ph == nil {
+				return func() string { return fmt.Sprintf("a well-formed header was rejected: %v (%s)", err, shape(&h)) }
+			}
+			return func() string {
+				if ph.StreamId() != h.StreamID || ph.HasPTS() != (h.PTSDTS >= 2) || ph.HasDTS() != (h.PTSDTS == 3) || (h.PTSDTS >= 2 && ph.PTS() != h.PTS) || (h.PTSDTS == 3 && ph.DTS() != h.DTS) || ph.DataAligned() != h.DataAligned() || !bytes.Equal(ph.Data(), b[hdrEnd:]) {
+					return "values read differ from the encoded ones (" + shape(&h) + ")"
+				}
+				return ""
+			}
+		})
+		c.Class("concurrent-readers-of-one-header")
+	})
 	c.Stream("by-stream-id", 256, func(sid int, r *gen.Rand) {
 		for k := 0; k < per; k++ {
 			h := genPES(r, sid, []byte{0, 2, 3}[k%3])
